@@ -30,11 +30,11 @@ func main() { vlib.Run("C30", run) }
 
 func run(c *vlib.Ctx) {
 	c.Rule("case = one file (size 0..2MiB biased to 0/1/2/chunk multiples; balanced|trickle, chunk 1..256KiB, fan-out 2..174, raw|pb leaves, CIDv0|1, optional mtime; optionally reached through a directory path or with ?filename=) + 8..16 requests (5..8 for files > 300 kB), each sent as GET and HEAD through handler.ServeHTTP; Range strings come from a grammar (single, suffix, open-ended, multi, overlapping, unsatisfiable, sum>size, offsets 0/1/size-1/size/size+1/2^62, OWS, empty list members, malformed) x If-Range (current ETag, weak, other, date) x If-None-Match x If-Modified-Since. Strata clean-* reject every request that has a trigger feature of a listed finding (first range != final range while the reader is pre-seeked; first range a suffix longer than the file); stratum hostile is unconstrained; stratum wire sends clean requests over a real loopback httptest.Server. distinct = FNV of file spec + request list + observed responses; non-trivial = file DAG has >= 2 levels and the case byte-verified at least one 206 with non-zero start, one full 200 and one 416 or 304")
-	c.Cases("clean-single", c.N(48, 900), func(k *vlib.Case) { oneCase(k, modeSingle) })
-	c.Cases("clean-multi", c.N(40, 700), func(k *vlib.Case) { oneCase(k, modeMulti) })
-	c.Cases("clean-cond", c.N(32, 600), func(k *vlib.Case) { oneCase(k, modeCond) })
-	c.Cases("hostile", c.N(40, 700), func(k *vlib.Case) { oneCase(k, modeHostile) })
-	c.Cases("wire", c.N(8, 100), func(k *vlib.Case) { oneCase(k, modeWire) })
+	c.Cases("clean-single", c.N(48, 500), func(k *vlib.Case) { oneCase(k, modeSingle) })
+	c.Cases("clean-multi", c.N(40, 400), func(k *vlib.Case) { oneCase(k, modeMulti) })
+	c.Cases("clean-cond", c.N(32, 300), func(k *vlib.Case) { oneCase(k, modeCond) })
+	c.Cases("hostile", c.N(40, 350), func(k *vlib.Case) { oneCase(k, modeHostile) })
+	c.Cases("wire", c.N(8, 50), func(k *vlib.Case) { oneCase(k, modeWire) })
 }
 
 const (
@@ -508,6 +508,9 @@ func oneCase(k *vlib.Case, mode int) {
 
 	// baseline: plain GET gives the validators the conditional requests refer to
 	base := w.do("GET", &request{})
+	if base.hung {
+		return
+	}
 	w.etag = base.hdr.Get("Etag")
 	w.lastMo = base.hdr.Get("Last-Modified")
 	k.Logf("baseline GET -> %d Etag=%s Last-Modified=%q", base.code, w.etag, w.lastMo)
@@ -538,6 +541,9 @@ func oneCase(k *vlib.Case, mode int) {
 				rq = &request{}
 				break
 			}
+		}
+		if k.C.Aborted() {
+			return
 		}
 		var got [2]*response
 		bad := false
@@ -577,7 +583,12 @@ type response struct {
 	bodyErr error // wire only
 	wireCL  int64 // wire only: ContentLength as parsed by the client
 	wire    bool
+	hung    bool // the watchdog fired (class hang/... recorded, batch aborted)
 }
+
+// watchdog is generous: the machine may be heavily loaded and the thorough tier
+// runs under the race detector; a request normally takes milliseconds.
+const watchdog = 10 * time.Minute
 
 func (p *response) summary() string {
 	s := fmt.Sprintf("%d", p.code)
@@ -618,18 +629,17 @@ func (w *world) do(method string, rq *request) *response {
 		set(req.Header)
 		tr := &http.Transport{DisableCompression: true, DisableKeepAlives: true}
 		var resp *http.Response
-		vlib.Guard(w.k, "wire-request", 120*time.Second, func() {
+		if !vlib.Guard(w.k, "wire-request", watchdog, func() {
 			resp, err = tr.RoundTrip(req)
 			if err == nil {
 				out.body, out.bodyErr = io.ReadAll(resp.Body)
 				resp.Body.Close()
 			}
-		})
+		}) {
+			return &response{hung: true, hdr: http.Header{}}
+		}
 		if err != nil {
 			panic(err)
-		}
-		if resp == nil {
-			return out
 		}
 		out.code, out.hdr, out.wire, out.wireCL = resp.StatusCode, resp.Header, true, resp.ContentLength
 		w.k.C.Count("wire_requests", 1)
@@ -638,7 +648,10 @@ func (w *world) do(method string, rq *request) *response {
 	req := httptest.NewRequest(method, w.url, nil)
 	set(req.Header)
 	rec := httptest.NewRecorder()
-	vlib.Guard(w.k, "serve", 120*time.Second, func() { w.h.ServeHTTP(rec, req) })
+	if !vlib.Guard(w.k, "serve", watchdog, func() { w.h.ServeHTTP(rec, req) }) {
+		// the handler goroutine still owns the recorder: do not touch it
+		return &response{hung: true, hdr: http.Header{}}
+	}
 	out.code, out.hdr, out.body = rec.Code, rec.Header(), rec.Body.Bytes()
 	return out
 }
@@ -654,6 +667,9 @@ func short(b []byte) string {
 func (w *world) judge(method string, rq *request, p *response) (ok bool) {
 	k := w.k
 	ok = true
+	if p.hung {
+		return false
+	}
 	n := int64(len(w.file))
 	f := analyse(rq, n, w.etag, w.lastMo)
 	trig := f.trigger()
